@@ -1,6 +1,7 @@
 package main
 
 import (
+	"os"
 	"crypto/sha1"
 	"encoding/hex"
 	"fmt"
@@ -181,6 +182,24 @@ func checkC14(ctx *Ctx) {
 				ctx.Res.Violate(Violation{What: fmt.Sprintf("two different tasks share the temp dir %s (hashed string %q)", results[idx[0]].real, results[idx[0]].preimage), Class: class, Witness: ws})
 			}
 		}
+	}
+	// stability across runs for a task with a joined in-port (the carrier IP of the sub-stream)
+	joinDirs := []string{}
+	for k := 0; k < 2; k++ {
+		d := &Desc{Name: "c14join", Max: 2, Nodes: []Node{{Name: "src", Kind: "filesource", Paths: []string{"a.txt", "b.txt"}}, {Name: "sts", Kind: "substream"},
+			{Name: "join", Kind: "proc", Cmd: "cat {i:in|join: } > {o:out}", Outs: map[string]string{"out": "joined.out"}}},
+			Edges: []Edge{{From: "src.out", To: "sts.in"}, {From: "sts.substream", To: "join.in"}}}
+		rr := RunWorkflow(d, RunOpts{Pre: map[string]string{"a.txt": "a\n", "b.txt": "b\n"}})
+		for _, e := range rr.Trace {
+			if e.Point == "exec.start" && e.Args[0] == "join" {
+				joinDirs = append(joinDirs, e.Args[1])
+			}
+		}
+		os.RemoveAll(rr.Dir)
+	}
+	ctx.Res.Eval("join-task-two-runs", true, "the same joining task in two runs")
+	if len(joinDirs) == 2 && joinDirs[0] != joinDirs[1] {
+		ctx.Res.Violate(Violation{What: fmt.Sprintf("the same task (joined in-port over a.txt, b.txt) got temp dir %s in one run and %s in the next", joinDirs[0], joinDirs[1]), Class: "c14.unstable-join", Witness: "FileSource(a.txt,b.txt) -> StreamToSubStream -> cat {i:in|join: }"})
 	}
 	ctx.Res.Extra["identities"] = len(ids)
 	ctx.Res.Extra["colliding_groups"] = collisions
